@@ -35,11 +35,21 @@ class SpecState:
 
     def __init__(self, exo):
         self.has_exo, self.state, self.exo, self.corr = exo, False, False, False
+        self.stale = False      # an exogenous model was attached while the prediction was skipped (see attach())
 
     def copy(self):
         s = SpecState(self.has_exo)
-        s.state, s.exo, s.corr = self.state, self.exo, self.corr
+        s.state, s.exo, s.corr, s.stale = self.state, self.exo, self.corr, self.stale
         return s
+
+    def attach(self):
+        """getStateModel().add_exogenous_model(new model): the configuration now has an exogenous model that is not
+        skipped.  The property fixes the configuration; what it implies here is only checked where it is unambiguous:
+        if the prediction was skipped at that moment, flags and behaviour are compared with the model as notes only
+        until the next command that names a part of the prediction (which must bring everything back in step)."""
+        if self.pred_skipped():
+            self.stale = True
+        self.has_exo, self.exo = True, False
 
     def pred_skipped(self):
         return self.state and (not self.has_exo or self.exo)
@@ -64,6 +74,8 @@ class SpecState:
             return "r0"
         if name not in known_here:
             return None          # step-level call with a name only the filter knows: not in the property
+        if name != "correction" and not (name == "exogenous" and not self.has_exo):
+            self.stale = False   # the aggregate flag is recomputed from the models
         if name == "exogenous":
             if not self.has_exo:
                 return None      # 'exogenous' is promised only when such a model exists
@@ -92,7 +104,7 @@ def labset(lab):
 
 
 def parse_op(tok):
-    if tok in ("p", "c", "H"):
+    if tok in ("p", "c", "H", "A"):
         return (tok,)
     lvl, name, on = tok.split(":")
     return (lvl, "" if name == "~" else name, on == "1")
@@ -116,7 +128,7 @@ def check_line_(line, hout, dout, stats, notes):
     ht, dt = hout.split(), dout.split()
     if len(ht) != len(ops) + 1 or len(dt) != len(ops) + 1:
         return [("harness-output", "unexpected output length (harness %d, model %d, ops %d)" % (len(ht), len(dt), len(ops)))]
-    raw = any(o[0] == "M" for o in ops)
+    raw = any(o[0] in ("M", "X") for o in ops)
     if raw:
         # state-model-level commands bypass the filter: outside the property, compared as notes only
         br = stats.setdefault("branches", {})
@@ -127,7 +139,7 @@ def check_line_(line, hout, dout, stats, notes):
             if len(mp) == 4:      # model branches reached only by bypassing the filter (copy / untouched)
                 key = "raw:pred:%s:%s" % (pk, "atPredict" if mp[1][0] == "1" else ("atPredictStep" if mp[2] == "id" else "ran-" + mp[2]))
                 br[key] = br.get(key, 0) + 1
-                key = "raw:cmd:M:%s" % mp[0]
+                key = "raw:cmd:%s" % mp[0]
                 br[key] = br.get(key, 0) + 1
         stats["raw_histories"] = stats.get("raw_histories", 0) + 1
         return []
@@ -144,6 +156,10 @@ def check_line_(line, hout, dout, stats, notes):
         br[key] = br.get(key, 0) + 1
 
     def behaviour(pl, cl, mpl, where, i):
+        if spec.stale and pl is not None:
+            if mpl not in labset(pl):
+                notes.append((line, i, pl, mpl))
+            pl = None
         for lab in (pl, cl):
             if lab is not None:
                 stats["observations"] = stats.get("observations", 0) + 1
@@ -182,11 +198,25 @@ def check_line_(line, hout, dout, stats, notes):
             behaviour(None, parts[1], None, where, i)
             continue
         r, fl, pl, cl = parts
+        if op is not None and op[0] == "A":
+            stats["attachments"] = stats.get("attachments", 0) + 1
+            spec.attach()
+            never_p = "fxexo"
+            hit("attach:%s" % ("stale" if spec.stale else "in-step"))
+            if spec.stale:
+                if tok != dt[i]:
+                    notes.append((line, i, tok, dt[i]))
+            else:
+                if fl != spec.flags():
+                    bad.append(("attach-exogenous:flags-mismatch", "%s: an exogenous model was attached through getStateModel().add_exogenous_model; reported flags %s, expected %s" % (where, fl, spec.flags())))
+                behaviour(pl, cl, mparts[2], where, i)
+            prev = (fl, pl, cl)
+            continue
         if op is not None and op[0] == "H":
             # hand-over: steps move-constructed into new objects held by a new filter; must behave as the original
             stats["handovers"] = stats.get("handovers", 0) + 1
             nb = len(bad)
-            if fl != spec.flags():
+            if fl != (mparts[1] if spec.stale else spec.flags()):
                 bad.append(("handover-changes-flags", "%s: after the hand-over the reported flags are %s, the commands given imply %s" % (where, fl, spec.flags())))
             behaviour(pl, cl, mparts[2], where, i)
             if spec.corr and "id" not in labset(cl) and ck in ("kfc", "ukfc"):
@@ -211,7 +241,10 @@ def check_line_(line, hout, dout, stats, notes):
                 if prev is not None and (fl != prev[0] or not (labset(pl) & labset(prev[1])) or not (labset(cl) & labset(prev[2]))):
                     bad.append(("unknown-name-changes-state", "%s: skip(%r, %s) with an unknown name changed flags/behaviour %s -> %s" % (where, name, on, prev, (fl, pl, cl))))
             hit("cmd:%s:%s:%s" % (lvl, name if name in NAMES else "unknown", mparts[0]))
-        if fl != spec.flags():
+        if spec.stale:
+            if fl != mparts[1]:
+                notes.append((line, i, fl, mparts[1]))
+        elif fl != spec.flags():
             bad.append(("flags-mismatch", "%s: reported skipping flags (prediction,state model,exogenous model)=%s but the commands given imply %s" % (where, fl, spec.flags())))
         behaviour(pl, cl, mparts[2], where, i)
         prev = (fl, pl, cl)
@@ -261,6 +294,21 @@ def exhaustive_cases(seed):
                         ops = prefix_for(exo, *st) + ["H", cmd, "H", "p", "c", "F:all:0", "H", "p", "c"]
                     cases.append(("skip %s %d %s %d %d %d %s" % (pk, exo, ck, (seed * 7919 + idx) % 100000, n, k, " ".join(ops)),
                                   {"style": "exhaustive", "pk": pk, "exo": exo}))
+            # configuration changed after construction: an exogenous model attached in every flag state, then every
+            # named command (nothing may be latched at construction / at the first command), then everything off
+            if pk != "draw2":
+                for st in states:
+                    for cmd in ["F:%s:%d" % (n, b) for n in NAMES for b in (0, 1)] + ["P:state:1", "P:exogenous:0"]:
+                        idx += 1
+                        ops = prefix_for(exo, *st) + (["F:prediction:1", "F:prediction:0"] if idx % 2 else []) + ["A", cmd, "p", "c", "F:all:0", "p", "c"]
+                        cases.append(("skip %s %d %s %d %d %d %s" % (pk, exo, ck, (seed * 7919 + idx) % 100000, 1 + idx % 3, 1 + (idx // 3) % 3, " ".join(ops)),
+                                      {"style": "attach", "pk": pk, "exo": exo}))
+                # the exogenous model addressed directly, every name (notes only)
+                for nm in NAMES + UNKNOWN[:2]:
+                    idx += 1
+                    ops = ["F:state:1", "X:%s:1" % nm, "p", "X:%s:0" % nm, "F:all:0", "p"]
+                    cases.append(("skip %s %d %s %d %d %d %s" % (pk, exo, ck, (seed * 7919 + idx) % 100000, 2, 2, " ".join(ops)),
+                                  {"style": "raw", "pk": pk, "exo": exo}))
             # every raw flag combination (state-model-level commands bypass the bookkeeping): notes only
             for p in (0, 1):
                 for s in (0, 1):
@@ -282,7 +330,9 @@ def random_cases(g, count, maxlen):
         ops = []
         for _ in range(L):
             x = r.random()
-            if x < 0.06:
+            if x < 0.03:
+                ops.append("A" if pk != "draw2" else "H")
+            elif x < 0.06:
                 ops.append("H")
             elif x < 0.25:
                 ops.append("p")
@@ -355,7 +405,7 @@ def run(ctx):
         "states": len(stats.get("states", ())), "transitions": stats.get("cmds", 0),
         "style_histogram": hist,
         "traces_validated_against_impl": len(cases),
-        "commands_checked": stats.get("cmds", 0), "handovers_checked": stats.get("handovers", 0), "step_ops_checked": stats.get("step_ops", 0),
+        "commands_checked": stats.get("cmds", 0), "handovers_checked": stats.get("handovers", 0), "attachments_checked": stats.get("attachments", 0), "step_ops_checked": stats.get("step_ops", 0),
         "histories_identical_to_model": stats.get("identical", 0),
         "model_branch_hits": dict(sorted(branches.items())),
         "distinct_model_states_visited": len(stats.get("states", ())),
